@@ -21,8 +21,8 @@ RULE = (
     "relabelled and in the original field basis. Non-trivial = group element or translation differs from the identity."
 )
 ASSUMPTIONS = [
-    "tolerances as in C07: vw 2*errTol+1e-4, vJ/vLTE/T+- 1e-4 relative, widths 5*pressRelErrTol, offsets differences 5*pressRelErrTol",
-    "the first field's offset is pinned to zero by the solver, so only offset DIFFERENCES delta_i - delta_j are compared (mapped by the permutation)",
+    "tolerances: vw 2*errTol+1e-4, vJ/vLTE/T+- 1e-4 relative; wall widths and wall-centre distances 5e-3 relative (10x the largest spread observed between relabelled runs on the unchanged tree; the solver's stopping rule gives no sharper a-priori bound)",
+    "offsets are in units of each field's own width and the first field's offset is pinned to zero: the covariant quantities compared are the distances between wall centres z_i = -offset_i*width_i (mapped by the permutation)",
     "out-of-equilibrium particles excluded",
 ]
 
@@ -68,25 +68,29 @@ def case_pair(c: dict) -> dict:
     extra = 2 * ref["errTol"] if ref["vw"] is not None else 0.0
     r.close("Tplus", got["Tplus"] / ref["Tplus"], 1.0, 2e-4 + extra)
     r.close("Tminus", got["Tminus"] / ref["Tminus"], 1.0, 2e-4 + extra)
-    ptol = 5 * ref["pRel"]
+    # wall shape: 10x the largest spread between relabelled runs observed on the unchanged tree (6e-4 in the widths between
+    # the two choices of the pinned field, 1e-5 otherwise); the solver's stopping rule gives no sharper a-priori bound
+    wtol = 5e-3
     # widths: the SET of widths is invariant; with a known permutation: widths'[i] = widths[perm[i]]
-    r.close("widths-permuted", got["widths"], ref["widths"][perm], ptol * ref["widths"][perm])
-    r.close("widths-multiset", np.sort(got["widths"]), np.sort(ref["widths"]), ptol * np.sort(ref["widths"]))
-    # offsets: only differences are physical; offsets'[i] - offsets'[j] = offsets[perm[i]] - offsets[perm[j]]
-    dg = got["offsets"][:, None] - got["offsets"][None, :]
-    df = ref["offsets"][perm][:, None] - ref["offsets"][perm][None, :]
-    r.close("offset-differences-permuted", dg, df, ptol * (1 + np.abs(df)))
-    # field profiles: relabelled pointwise, up to the common shift of the wall position (offset of the pinned field)
-    # compare through the wall-shape parameters instead of pointwise values when the pinned field changes
+    r.close("widths-permuted", got["widths"] / ref["widths"][perm], 1.0, wtol)
+    r.close("widths-multiset", np.sort(got["widths"]) / np.sort(ref["widths"]), 1.0, wtol)
+    # offsets are measured in units of each field's own width and the first field's is pinned to zero: the physical,
+    # relabelling-covariant quantities are the distances between the wall centres z_i = -offset_i * width_i
+    zg = -got["offsets"] * got["widths"]
+    zf = -(ref["offsets"] * ref["widths"])[perm]
+    dg = zg[:, None] - zg[None, :]
+    df = zf[:, None] - zf[None, :]
+    r.close("wall-centre-distances-permuted", dg, df, wtol * np.max(ref["widths"]))
+    # field profiles: relabelled pointwise when the pinned field is the same one
     if perm[0] == 0:
         fp = tr(ref["fieldProfiles"])
-        # Z2: a reflected field may sit in the mirror phase; compare the deviation from the relabelled high-T phase up to sign per field
         scale = np.max(np.abs(ref["fieldProfiles"]))
+        # Z2: a reflected field may sit in the mirror phase; compare the deviation from the shift up to sign per field
         devg = np.abs(got["fieldProfiles"] - shift)
         devf = np.abs(fp - shift)
-        r.close("fieldProfiles-relabelled", devg, devf, ptol * scale)
-        r.close("temperatureProfile", got["temperatureProfile"] / ref["temperatureProfile"], 1.0, ptol * 0.1)
-        r.close("velocityProfile", got["velocityProfile"], ref["velocityProfile"], ptol * 0.1)
+        r.close("fieldProfiles-relabelled", devg, devf, wtol * scale)
+        r.close("temperatureProfile", got["temperatureProfile"] / ref["temperatureProfile"], 1.0, 1e-4 + extra * 0.1)
+        r.close("velocityProfile", got["velocityProfile"], ref["velocityProfile"], 1e-4 + extra)
     r.tag("perm-id" if perm == sorted(perm) else "perm-nontrivial", "shift0" if not np.any(shift) else "shifted",
           "reflected" if min(signs) < 0 else "unreflected")
     ident = perm == sorted(perm) and min(signs) > 0 and not np.any(shift)
